@@ -20,3 +20,52 @@ Definition latest_wins (revs : list revision) : objmap := fold_left apply_rev re
 (* the same, as a per-object-number lookup: the newest revision mentioning n decides *)
 Definition rev_mentions (r : revision) (n : N) : bool :=
   existsb (fun io => (fst (fst io) =? n)%N) (r_puts r) || existsb (fun id => (fst id =? n)%N) (r_dels r).
+
+(* ---------- the annotated history the reference writer (gen/histgen.py) consumes ---------- *)
+Inductive xstyle := StTable | StStream | StHybrid.
+(* where a put goes: plainly, or into the k-th object stream of its revision *)
+Record aput := { ap_id : oid; ap_obj : obj; ap_objstm : option N }.
+Record arev := { a_style : xstyle; a_puts : list aput; a_dels : list oid }.
+
+Definition forget (r : arev) : revision :=
+  {| r_puts := map (fun p => (ap_id p, ap_obj p)) (a_puts r); r_dels := a_dels r |}.
+
+(* a revision that stores objects in object streams cannot use a plain table: the writer makes it hybrid *)
+Definition is_hybrid (r : arev) : bool :=
+  match a_style r with
+  | StHybrid => true
+  | StTable => existsb (fun p => match ap_objstm p with Some _ => true | None => false end) (a_puts r)
+  | StStream => false
+  end.
+
+(* what earlier revisions did with object number n: (in an object stream?) per mention *)
+Definition earlier_puts (older : list arev) (n : N) : list aput :=
+  flat_map (fun r => filter (fun p => (fst (ap_id p) =? n)%N) (a_puts r)) older.
+
+(* The open findings, decided on the input history (mirrors history_class in props/c07.py):
+   freed-comes-back          a revision frees a number an earlier revision defines
+   hybrid-update             a hybrid revision stores an already defined number in an object stream
+   objstm-stale-generation   a number once stored in an object stream is redefined plainly with generation <> 0 *)
+Fixpoint known_class_from (older : list arev) (rest : list arev) : bool :=
+  match rest with
+  | [] => false
+  | r :: rest' =>
+    existsb (fun id => match earlier_puts older (fst id) with [] => false | _ => true end) (a_dels r)
+    || existsb (fun p =>
+                  match ap_objstm p with
+                  | Some _ => is_hybrid r && match earlier_puts older (fst (ap_id p)) with [] => false | _ => true end
+                  | None => negb (snd (ap_id p) =? 0)%N
+                            && existsb (fun q => match ap_objstm q with Some _ => true | None => false end)
+                                       (earlier_puts older (fst (ap_id p)))
+                  end) (a_puts r)
+    || known_class_from (older ++ [r]) rest'
+  end.
+Definition KnownClass (h : list arev) : bool := known_class_from [] h.
+
+(* cross-reference streams and object streams are carriers, not objects of the history *)
+Definition is_carrier (o : obj) : bool :=
+  match o with
+  | OStream d _ => has_type d (bs "ObjStm") || has_type d (bs "XRef")
+  | _ => false
+  end.
+Definition user_objects (m : objmap) : objmap := filter (fun io => negb (is_carrier (snd io))) m.
